@@ -24,7 +24,7 @@ from dimod import (BinaryQuadraticModel as BQM, QuadraticModel as QM, Constraine
 
 from harness.common import lab, rat, run_driver
 from harness.props.energy_common import (LABELS, Recipe, q8, F, fl, poly_value, rats, labs, qmb_tokens, parse_qmb, qmb_canon,
-                                         model_canon, perm_of, exc_class, gen_bqm, gen_qm)
+                                         model_canon, perm_of, exc_class, gen_bqm, gen_qm, edit_history)
 from harness.props.c01 import Batch
 from harness.props.c02 import GP, gen_cqm, cqm_tokens, cqm_canon_real, cqm_canon_tok, state_line
 
@@ -83,6 +83,49 @@ def assignments(order, vts):
     return (dict(zip(order, vals)) for vals in itertools.product(*[DOMS[vts[v]] for v in order]))
 
 
+# every form of `fixed` the API accepts ("dictionary or iterable of 2-tuples"); the one-shot forms can be read only once
+FIXED_FORMS = ['dict', 'pairs', 'tuple of pairs', 'items()', 'zip', 'generator', 'iter(list)', 'Mapping subclass', 'map object']
+ONE_SHOT = ('zip', 'generator', 'iter(list)', 'map object')
+
+MAPPING_SRC = ('import collections.abc\n'
+               'class FixedMap(collections.abc.Mapping):\n'
+               '    """a Mapping that is not a dict: only __getitem__/__iter__/__len__ (items() comes from the ABC)"""\n'
+               '    def __init__(self, pairs): self._p = list(pairs)\n'
+               '    def __getitem__(self, k):\n'
+               '        for a, b in self._p:\n'
+               '            if a == k: return b\n'
+               '        raise KeyError(k)\n'
+               '    def __iter__(self): return iter([a for a, _ in self._p])\n'
+               '    def __len__(self): return len(self._p)')
+
+
+def fixed_src(r, R, fixed, forms=FIXED_FORMS):
+    """(source text, form name) of `fixed` in one of the accepted forms; defines FixedMap in the recipe when needed"""
+    form = r.choice(forms)
+    pairs = '[' + ', '.join(f'({v!r}, {vrepr(a)})' for v, a in fixed) + ']'
+    if form == 'dict':
+        src = '{' + ', '.join(f'{v!r}: {vrepr(a)}' for v, a in fixed) + '}'
+    elif form == 'pairs':
+        src = pairs
+    elif form == 'tuple of pairs':
+        src = 'tuple(' + pairs + ')'
+    elif form == 'items()':
+        src = 'dict(' + pairs + ').items()'
+    elif form == 'zip':
+        src = f'zip({[v for v, _ in fixed]!r}, [' + ', '.join(vrepr(a) for _, a in fixed) + '])'
+    elif form == 'generator':
+        src = f'((v_, a_) for v_, a_ in {pairs})'
+    elif form == 'iter(list)':
+        src = f'iter({pairs})'
+    elif form == 'map object':
+        src = f'map(tuple, {pairs})'
+    else:
+        if 'FixedMap' not in R.ns:
+            R.do(MAPPING_SRC)
+        src = f'FixedMap({pairs})'
+    return src, form
+
+
 def items_tok(fixed):
     return ','.join(f'{lab(k)}={rat(F(v))}' for k, v in fixed) or '-'
 
@@ -94,6 +137,14 @@ def case_model_fix(ctx, r, B):
     if r.random() < .5:
         dtype = r.choice(['np.float64', 'np.float32', 'object'])
         labels, vt = gen_bqm(r, R, dtype=dtype, nmax=5)
+        if labels and r.random() < .4:
+            # "at any point of an edit history": the model that is fixed has been relabelled / contracted / copied / converted … before
+            if edit_history(ctx, r, R, dtype, nops=r.randint(1, 3), tag='history op before fixing') is None:
+                return
+            labels, vt = list(R['m'].variables), R['m'].vartype.name
+            if len(labels) > 5 or any(abs(F(b)) > 64 for _, b in R['m'].iter_linear()) or any(abs(F(b)) > 64 for _, _, b in R['m'].iter_quadratic()):
+                return
+            ctx.tick('fixed after an edit history')
         vts = {v: vt for v in labels}
         cls = 'BQM' + ('[object]' if dtype == 'object' else '[float32]' if dtype == 'np.float32' else '')
     else:
@@ -115,8 +166,13 @@ def case_model_fix(ctx, r, B):
         return
     many = len(fixed) > 1 or r.random() < .3
     R.do('n = m.copy()')
-    call = (f'n.fix_variables({dict(fixed)!r})' if many and r.random() < .5 else
-            f'n.fix_variables({fixed!r})' if many else f'n.fix_variable({fixed[0][0]!r}, {vrepr(fixed[0][1])})')
+    form = None
+    if many:
+        fsrc, form = fixed_src(r, R, fixed)
+        call = f'n.fix_variables({fsrc})'
+        ctx.tick(f'fixed given as {form}')
+    else:
+        call = f'n.fix_variable({fixed[0][0]!r}, {vrepr(fixed[0][1])})'
     R.do(call)
     for _, a in fixed:
         if isinstance(a, Val):
@@ -125,7 +181,8 @@ def case_model_fix(ctx, r, B):
     site = f'{cls}.fix_variable' + ('s' if many else '')
     has_self = any(u == v for u, v, _ in m.iter_quadratic())
     ic = ('squared term; ' if has_self and any(m.degree(v) and (v, v) in [(a, b) for a, b, _ in m.iter_quadratic()] for v, _ in fixed) else '') + \
-         ('every variable fixed' if len(fixed) == len(labels) else f'{len(fixed)} of {len(labels)} variables')
+         ('every variable fixed' if len(fixed) == len(labels) else f'{len(fixed)} of {len(labels)} variables') + \
+         ('; fixed given as a one-shot iterable' if form in ONE_SHOT else '')
     ctx.tick(site)
     ctx.case((site, tuple(R.lines[4:])), nontrivial=True, sample=dict(script=R.lines[4:]) if len(labels) == 3 else None)
     P = GP.of_model(m)
@@ -249,11 +306,16 @@ def case_cqm_fix(ctx, r, B):
     labs0, clabs0 = labs(c.variables), labs(c.constraint_labels)
     many = len(fixed) > 1 or r.random() < .4
     R.do('import copy; a = copy.deepcopy(c)')
+    form_a = None
     if many:
-        R.do(f'a.fix_variables({(dict(fixed) if r.random() < .5 else fixed)!r}, inplace=True)')
+        fsrc, form_a = fixed_src(r, R, fixed)
+        ctx.tick(f'fixed given as {form_a} (CQM in place)')
+        R.do(f'a.fix_variables({fsrc}, inplace=True)')
     else:
         R.do(f'a.fix_variable({fixed[0][0]!r}, {vrepr(fixed[0][1])})')
-    R.do(f'b = c.fix_variables({(dict(fixed) if r.random() < .5 else fixed)!r}, inplace=False)')
+    fsrc, form_b = fixed_src(r, R, fixed)
+    ctx.tick(f'fixed given as {form_b} (CQM copying)')
+    R.do(f'b = c.fix_variables({fsrc}, inplace=False)')
     a, b = R['a'], R['b']
     rest = [v for v in c.variables if v not in dict(fixed)]
     exprs = [('objective', lambda q: q.objective)] + [(f'constraint {lbl!r}', (lambda q, lbl=lbl: q.constraints[lbl].lhs)) for lbl in c.constraint_labels]
@@ -282,8 +344,10 @@ def case_cqm_fix(ctx, r, B):
                     assert poly_value(q.constraints[lbl].lhs, x) == poly_value(c.constraints[lbl].lhs, full), (name, lbl, x)
                     assert q.constraints[lbl].rhs == c.constraints[lbl].rhs and q.constraints[lbl].sense == c.constraints[lbl].sense
         '''))
+    ic0 = ic
     for path, q in (('in place', a), ('copying', b)):
         site = 'CQM.fix_variable' + ('s' if many or path == 'copying' else '') + f' ({path})'
+        ic = ic0 + ('; fixed given as a one-shot iterable' if (form_a if path == 'in place' else form_b) in ONE_SHOT else '')
         ctx.tick(site)
         ctx.case((site, tuple(R.lines[4:])), nontrivial=True, sample=dict(script=R.lines[4:]) if len(labels) == 3 and path == 'copying' else None)
         if list(q.variables) != rest:
@@ -310,6 +374,7 @@ def case_cqm_fix(ctx, r, B):
                 if poly_value(get(q), x) != poly_value(get(c), full):
                     ctx.fail('property', site, ic, f'{name}: value differs at {x}', repro=repro)
                     return
+    ic = ic0
     # (i) both models
     exp_a = (cqm_canon_real(a), labs(a.variables))
     exp_b = (cqm_canon_real(b), labs(b.variables))
@@ -410,7 +475,8 @@ def run(ctx):
     n = ctx.scale(4000, 50000)
     ctx.rule = ('random BQM (three back-ends) / QM / CQM (objective + 1-3 constraints over differing variable subsets, squared INTEGER terms, '
                 'constants, soft constraints) / BinaryPolynomial x random subset of variables x values (30 % outside the domain) x '
-                'fix_variable, fix_variables(dict | pairs), CQM in place and copying; a case = one fixing call; results compared '
+                'fix_variable, fix_variables(fixed) with `fixed` in every accepted form (dict, list/tuple of pairs, items(), Mapping subclass, and the '
+                'one-shot iterables zip / generator / iter / map), CQM in place and copying; a case = one fixing call; results compared '
                 'coefficient-wise with polynomial substitution and on every assignment of the remaining variables')
     for i in range(n):
         kind = r.choice(['model', 'model', 'cqm', 'cqm', 'cqm', 'poly'])
